@@ -274,7 +274,11 @@ pub fn mech_counters(t: &T1) -> Vec<(&'static str, u64)> {
     if data_frames > submitted_chunks {
         non_final_data_with_more = data_frames - submitted_chunks;
     }
+    let injected = s.iolog.iter().filter(|e| matches!(e.kind, crate::sim::IoEvKind::Error(_))).count() as u64;
+    let dropped = t.log.snapshot().iter().filter(|r| matches!(&r.ev, Ev::Err(x) if x.contains("dropped by the application"))).count() as u64;
     vec![
+        ("transport_faults_injected", injected),
+        ("connections_dropped_by_app", dropped),
         ("partial_writes", s.partial_writes),
         ("partial_reads", s.partial_reads),
         ("spurious_pendings", s.pendings),
